@@ -63,6 +63,30 @@ def zreal(v):
     return v
 
 
+def split_coef(e):
+    """e = c * t with c a rational numeral (1 if none): numeric factors are pulled out of abstracted products."""
+    if z3.is_app_of(e, z3.Z3_OP_UMINUS):
+        c, t = split_coef(e.arg(0))
+        return -c, t
+    if z3.is_mul(e):
+        c = Fraction(1)
+        rest = []
+        for ch in e.children():
+            if z3.is_rational_value(ch):
+                c *= Fraction(ch.numerator_as_long(), ch.denominator_as_long())
+            else:
+                rest.append(ch)
+        if len(rest) == 1:
+            c2, t = split_coef(rest[0])
+            return c * c2, t
+        if rest and c != 1:
+            t = rest[0]
+            for x in rest[1:]:
+                t = t * x
+            return c, t
+    return Fraction(1), e
+
+
 class Num:
     """A real number: exact Fraction when concrete, z3 Real term otherwise (R-mode floats)."""
     __slots__ = ("v",)
@@ -143,8 +167,11 @@ class Num:
                 return self
             return Num(self.z() * o.z())
         if MUL_MODE["mode"] == "uf":
-            a, b = self.z(), o.z()
-            return Num(_PROD(a, b) + _PROD(b, a))
+            ca, a = split_coef(self.z())
+            cb, b = split_coef(o.z())
+            p = _PROD(a, b) + _PROD(b, a)
+            c = ca * cb
+            return Num(p) if c == 1 else Num(zreal(c) * p)
         return Num(self.z() * o.z())
 
     __rmul__ = __mul__
